@@ -29,6 +29,7 @@ SHARED = ["Expr/IO.vo", "Eval/TableProofs.vo"]
 PROOF_MODULES = []   # coq/C45/*.v are compiled directly with coqc (OWN_FILES, in dependency order) until listed in _CoqProject
 OWN_FILES = ["C45/MpfrTerm.v", "C45/Gen_MpfrRules.v", "C45/MpfrModel.v", "C45/MpfrRun.v", "C45/MpfrSpec.v",
              "C45/MpfrRound.v", "C45/MpfrArith.v", "C45/MpfrTable.v"]
+MODEL_FILES = ["C45/MpfrTerm.v", "C45/Gen_MpfrRules.v", "C45/MpfrModel.v", "C45/MpfrRun.v"]
 OBLIGATIONS = ["C45/P_mpfr_rules_ideal.v", "C45/P_mpfr_table_covers_spec.v", "C45/P_mpfr_rules_agree_eval.v",
                "C45/P_mpfr_agree_classes.v", "C45/P_mpfr_agree_sem.v", "C45/P_rounding_is_flocq_round.v",
                "C45/P_mpfr_arith_correctly_rounded.v", "C45/P_arith_pairs.v", "C45/P_rdiv_correctly_rounded_refuted.v",
@@ -103,7 +104,9 @@ def build_own(ctx):
                 if os.path.exists(vo):
                     os.remove(vo)
                 ctx.broken.append({"kind": "proof", "name": f, "detail": out[-2500:]})
-                return False
+                if f in MODEL_FILES:
+                    return False
+                continue            # a proof file: the model files are still usable
             newest = max(newest, os.path.getmtime(vo))
     return True
 
@@ -284,7 +287,7 @@ def explore_eval(ctx, drv, model, cases, search=False):
             ctx.violation(key, "`%s` (tree %s): %s; eval_mpfr=%s evalf=%s" % (case, dump[:200], item, v, f.get("F")),
                           {"case": case, "impl": re.sub(r"\tO=[^\t]*", "", line)[:400], "model": m})
     if not search:
-        ctx.cov["samples"] += [{"case": "E %d %s" % rows[i][0], "impl": re.sub(r"\tO=[^\t]*", "", rows[i][4])[:300], "model": mrow[i]}
+        ctx.cov["samples"] += [{"case": "E %d %s" % rows[i][0], "impl": re.sub(r"\tO=[^\t]*", "", rows[i][4])[:300], "model": mrow.get(i)}
                                for i in usable[:4]]
 
 
